@@ -1,6 +1,1738 @@
-//! (stub) — not generated yet.
-use super::{GenFile, Repo};
+//! `Gen/Wiring.lean` (property C11): what every "inherited" `str` method of `HipStr` literally does.
+//!
+//! Sources: `src/string.rs` (the wrappers and `HipStr::slice_ref_unchecked`) and
+//! `src/string/pattern.rs` (the pattern traits, the `impl_pat!` macro definition and invocations,
+//! the `Adopt` impls, `IterWrapper`).
+//!
+//! Everything is read STRUCTURALLY (syn ASTs; the `macro_rules!` token stream is cut into arms, the
+//! impl body inside each transcriber is parsed as impl items) and matched against the templates
+//! below. Inside a recognised template, a *slot* (receiver, pattern argument, count argument, index
+//! component, adoption source) that is not the expected expression is recorded as `.other "<expr>"`
+//! so that the Lean row predicate fails on that row; a body that matches no template at all is a
+//! translator failure (`Err`): the generator never guesses.
+//!
+//! Wrapper templates (`HipStr` methods; `CALL` = the std call, see `classify_call`):
+//!   T1  `IterWrapper::new(SRC, CALL)`
+//!   T2  `let s = CALL; unsafe { SRC.slice_ref_unchecked(s) }`
+//!   T3  `CALL.map(|s| unsafe { SRC.slice_ref_unchecked(s) })`
+//!   T4  `CALL.map(|(a, b)| unsafe { (SRC.slice_ref_unchecked(a), SRC.slice_ref_unchecked(b)) })`
+//!   T5  `Self::from(CALL)`
+//!   T6  `Self(self.0.m(args))`
+//!   T7  `String::m(v).map(Into::into)` / `String::m(v).into()`
+//! CALL: `self.as_str().m(args)` (direct) | `<pattern param>.m([count,] HAYSTACK)` (pattern trait).
+//! Arm template: `fn m(self, [n: usize,] h: &str) -> R { RECV.m(args) }` plus
+//! `type X<'haystack> = core::str::X<'haystack, Self>;`.
 
-pub fn generate(_repo: &Repo) -> Result<Vec<GenFile>, String> {
-    Ok(vec![])
+use proc_macro2::{Delimiter, TokenStream, TokenTree};
+use syn::parse::Parser;
+use syn::spanned::Spanned;
+use syn::{Block, Expr, FnArg, ImplItem, ImplItemFn, Item, Pat, ReturnType, Stmt, Type};
+
+use super::repo::{loc, SrcFile};
+use super::{GenFile, Repo, HEADER};
+
+const STRING_RS: &str = "src/string.rs";
+const PATTERN_RS: &str = "src/string/pattern.rs";
+
+/// `str` / `String` functions with an allocating result: a `HipStr` method of that name is a wrapper
+/// even though its body contains neither `IterWrapper` nor `slice_ref_unchecked`.
+const ALLOCATING: &[&str] = &[
+    "to_lowercase",
+    "to_uppercase",
+    "to_ascii_lowercase",
+    "to_ascii_uppercase",
+    "repeat",
+    "replace",
+    "replacen",
+    "from_utf16",
+    "from_utf16_lossy",
+    "from_utf16le",
+    "from_utf16le_lossy",
+    "from_utf16be",
+    "from_utf16be_lossy",
+];
+
+// ---------------------------------------------------------------------------------------------
+// small helpers
+
+fn lean_str(s: &str) -> String {
+    let mut o = String::from("\"");
+    for c in s.chars() {
+        match c {
+            '"' => o.push_str("\\\""),
+            '\\' => o.push_str("\\\\"),
+            '\n' => o.push_str("\\n"),
+            c => o.push(c),
+        }
+    }
+    o.push('"');
+    o
+}
+
+/// token text of an expression / type with single spaces (deterministic, only used inside `.other`)
+fn text<T: quote::ToTokens>(t: &T) -> String {
+    t.to_token_stream().to_string()
+}
+
+fn squeeze(s: &str) -> String {
+    s.chars().filter(|c| !c.is_whitespace()).collect()
+}
+
+fn path_ident(e: &Expr) -> Option<String> {
+    match e {
+        Expr::Path(p) if p.qself.is_none() && p.attrs.is_empty() => p.path.get_ident().map(|i| i.to_string()),
+        _ => None,
+    }
+}
+
+fn is_self(e: &Expr) -> bool {
+    path_ident(e).as_deref() == Some("self")
+}
+
+/// `self.<name>` (named field) or `self.<index>`
+fn self_field(e: &Expr) -> Option<String> {
+    if let Expr::Field(f) = e {
+        if is_self(&f.base) {
+            return Some(match &f.member {
+                syn::Member::Named(i) => i.to_string(),
+                syn::Member::Unnamed(i) => i.index.to_string(),
+            });
+        }
+    }
+    None
+}
+
+/// strips parentheses, `unsafe { e }` and `{ e }` wrappers around a single tail expression
+fn strip(e: &Expr) -> &Expr {
+    match e {
+        Expr::Paren(p) => strip(&p.expr),
+        Expr::Group(g) => strip(&g.expr),
+        Expr::Unsafe(u) => match single_expr(&u.block) {
+            Some(inner) => strip(inner),
+            None => e,
+        },
+        Expr::Block(b) if b.label.is_none() => match single_expr(&b.block) {
+            Some(inner) => strip(inner),
+            None => e,
+        },
+        _ => e,
+    }
+}
+
+fn single_expr(b: &Block) -> Option<&Expr> {
+    match b.stmts.as_slice() {
+        [Stmt::Expr(e, None)] => Some(e),
+        _ => None,
+    }
+}
+
+fn is_self_as_str(e: &Expr) -> bool {
+    matches!(e, Expr::MethodCall(m) if m.method == "as_str" && m.args.is_empty() && m.turbofish.is_none() && is_self(&m.receiver))
+}
+
+// ---------------------------------------------------------------------------------------------
+// Lean rendering of the slot classes
+
+#[derive(Clone, Debug, PartialEq)]
+enum Src {
+    SelfRef,
+    SourceParam,
+    SelfSourceField,
+    Other(String),
+}
+impl Src {
+    fn lean(&self) -> String {
+        match self {
+            Src::SelfRef => ".selfRef".into(),
+            Src::SourceParam => ".sourceParam".into(),
+            Src::SelfSourceField => ".selfSourceField".into(),
+            Src::Other(s) => format!("(.other {})", lean_str(s)),
+        }
+    }
+}
+
+#[derive(Clone, Debug, PartialEq)]
+enum Pass {
+    Absent,
+    Unchanged,
+    Other(String),
+}
+impl Pass {
+    fn lean(&self) -> String {
+        match self {
+            Pass::Absent => ".absent".into(),
+            Pass::Unchanged => ".unchanged".into(),
+            Pass::Other(s) => format!("(.other {})", lean_str(s)),
+        }
+    }
+}
+
+#[derive(Clone, Debug, PartialEq)]
+enum Recv {
+    SelfAsStr,
+    SelfBytes,
+    StringFn,
+    Other(String),
+}
+impl Recv {
+    fn lean(&self) -> String {
+        match self {
+            Recv::SelfAsStr => ".selfAsStr".into(),
+            Recv::SelfBytes => ".selfBytes".into(),
+            Recv::StringFn => ".stringFn".into(),
+            Recv::Other(s) => format!("(.other {})", lean_str(s)),
+        }
+    }
+}
+
+#[derive(Clone, Debug)]
+enum Via {
+    Direct,
+    PatTrait(String),
+    Bytes,
+    StringFn,
+}
+impl Via {
+    fn lean(&self) -> String {
+        match self {
+            Via::Direct => ".direct".into(),
+            Via::PatTrait(b) => format!("(.patTrait {})", lean_str(b)),
+            Via::Bytes => ".bytes".into(),
+            Via::StringFn => ".stringFn".into(),
+        }
+    }
+}
+
+#[derive(Clone, Debug)]
+enum Adopt {
+    IterWrapper(Src),
+    SliceRef(Src),
+    FromString,
+    WrapBytes,
+    NotAdopted(String),
+}
+impl Adopt {
+    fn lean(&self) -> String {
+        match self {
+            Adopt::IterWrapper(s) => format!("(.iterWrapper {})", s.lean()),
+            Adopt::SliceRef(s) => format!("(.sliceRef {})", s.lean()),
+            Adopt::FromString => ".fromString".into(),
+            Adopt::WrapBytes => ".wrapBytes".into(),
+            Adopt::NotAdopted(s) => format!("(.notAdopted {})", lean_str(s)),
+        }
+    }
+}
+
+// ---------------------------------------------------------------------------------------------
+// wrappers (src/string.rs)
+
+/// the parameters of a wrapper that matter
+struct Params {
+    /// (name, trait bound) of the parameter whose type is a pattern (`P: Bound` or `impl Bound`)
+    pattern: Option<(String, String)>,
+    /// names of the `usize` parameters
+    counts: Vec<String>,
+    /// all other parameter names
+    others: Vec<String>,
+}
+
+fn last_seg(p: &syn::Path) -> String {
+    p.segments.last().map(|s| s.ident.to_string()).unwrap_or_default()
+}
+
+fn single_trait_bound<'a>(
+    bounds: impl Iterator<Item = &'a syn::TypeParamBound>,
+    file: &SrcFile,
+    f: &ImplItemFn,
+) -> Result<String, String> {
+    let mut names = vec![];
+    for b in bounds {
+        match b {
+            syn::TypeParamBound::Trait(t) => names.push(last_seg(&t.path)),
+            other => {
+                return Err(format!(
+                    "Gen/Wiring: unsupported bound `{}` in {} at {}",
+                    text(other),
+                    f.sig.ident,
+                    loc(file, f.sig.span())
+                ))
+            }
+        }
+    }
+    if names.len() != 1 {
+        return Err(format!(
+            "Gen/Wiring: expected exactly one trait bound on the pattern parameter of {} at {}",
+            f.sig.ident,
+            loc(file, f.sig.span())
+        ));
+    }
+    Ok(names.remove(0))
+}
+
+fn params_of(file: &SrcFile, f: &ImplItemFn) -> Result<Params, String> {
+    let mut p = Params { pattern: None, counts: vec![], others: vec![] };
+    if f.sig.generics.where_clause.is_some() {
+        return Err(format!(
+            "Gen/Wiring: where clause on wrapper {} at {}",
+            f.sig.ident,
+            loc(file, f.sig.span())
+        ));
+    }
+    // generic type parameters with their bound
+    let mut generics: Vec<(String, String)> = vec![];
+    for gp in &f.sig.generics.params {
+        match gp {
+            syn::GenericParam::Type(tp) => {
+                let b = single_trait_bound(tp.bounds.iter(), file, f)?;
+                generics.push((tp.ident.to_string(), b));
+            }
+            other => {
+                return Err(format!(
+                    "Gen/Wiring: unsupported generic parameter `{}` on {} at {}",
+                    text(other),
+                    f.sig.ident,
+                    loc(file, f.sig.span())
+                ))
+            }
+        }
+    }
+    for a in &f.sig.inputs {
+        let FnArg::Typed(pt) = a else { continue };
+        let Pat::Ident(pi) = &*pt.pat else {
+            return Err(format!(
+                "Gen/Wiring: parameter pattern `{}` of {} at {}",
+                text(&pt.pat),
+                f.sig.ident,
+                loc(file, f.sig.span())
+            ));
+        };
+        let name = pi.ident.to_string();
+        match &*pt.ty {
+            Type::Path(tp) if tp.qself.is_none() => {
+                if let Some(id) = tp.path.get_ident() {
+                    let id = id.to_string();
+                    if id == "usize" {
+                        p.counts.push(name);
+                        continue;
+                    }
+                    if let Some((_, b)) = generics.iter().find(|(g, _)| *g == id) {
+                        if p.pattern.is_some() {
+                            return Err(format!(
+                                "Gen/Wiring: two pattern parameters on {} at {}",
+                                f.sig.ident,
+                                loc(file, f.sig.span())
+                            ));
+                        }
+                        p.pattern = Some((name, b.clone()));
+                        continue;
+                    }
+                }
+                p.others.push(name);
+            }
+            Type::ImplTrait(it) => {
+                let b = single_trait_bound(it.bounds.iter(), file, f)?;
+                if p.pattern.is_some() {
+                    return Err(format!(
+                        "Gen/Wiring: two pattern parameters on {} at {}",
+                        f.sig.ident,
+                        loc(file, f.sig.span())
+                    ));
+                }
+                p.pattern = Some((name, b));
+            }
+            _ => p.others.push(name),
+        }
+    }
+    Ok(p)
+}
+
+/// the std call inside a wrapper
+struct Call {
+    via: Via,
+    callee: String,
+    recv: Recv,
+    pat: Pass,
+    count: Pass,
+}
+
+fn classify_src(e: &Expr) -> Src {
+    let e = strip(e);
+    if is_self(e) {
+        Src::SelfRef
+    } else {
+        Src::Other(text(e))
+    }
+}
+
+fn classify_haystack(e: &Expr) -> Recv {
+    let e = strip(e);
+    if is_self_as_str(e) {
+        Recv::SelfAsStr
+    } else {
+        Recv::Other(text(e))
+    }
+}
+
+fn classify_count(e: &Expr, params: &Params) -> Pass {
+    match path_ident(strip(e)) {
+        Some(id) if params.counts.contains(&id) => Pass::Unchanged,
+        _ => Pass::Other(text(e)),
+    }
+}
+
+fn err_at(file: &SrcFile, span: proc_macro2::Span, what: &str) -> String {
+    format!("Gen/Wiring: {what} at {}", loc(file, span))
+}
+
+/// CALL: `self.as_str().m(args)` | `<pattern param>.m([count,] HAYSTACK)`
+fn classify_call(file: &SrcFile, e: &Expr, params: &Params) -> Result<Call, String> {
+    let e = strip(e);
+    let Expr::MethodCall(mc) = e else {
+        return Err(err_at(file, e.span(), &format!("expected a method call, found `{}`", text(e))));
+    };
+    if mc.turbofish.is_some() {
+        return Err(err_at(file, e.span(), "turbofish on the std call"));
+    }
+    let callee = mc.method.to_string();
+    let recv = strip(&mc.receiver);
+    // through the pattern trait
+    if let (Some(id), Some((pname, bound))) = (path_ident(recv), &params.pattern) {
+        if id == *pname {
+            let args: Vec<&Expr> = mc.args.iter().collect();
+            let (count, hay) = match args.as_slice() {
+                [h] => (Pass::Absent, *h),
+                [c, h] => (classify_count(c, params), *h),
+                _ => {
+                    return Err(err_at(
+                        file,
+                        e.span(),
+                        &format!("pattern-trait call `{}` with {} arguments", text(e), args.len()),
+                    ))
+                }
+            };
+            return Ok(Call {
+                via: Via::PatTrait(bound.clone()),
+                callee,
+                recv: classify_haystack(hay),
+                pat: Pass::Unchanged,
+                count,
+            });
+        }
+    }
+    // directly on a `&str`
+    let is_str_recv = is_self_as_str(recv);
+    if is_str_recv || matches!(recv, Expr::MethodCall(_)) {
+        let mut pat = Pass::Absent;
+        let mut count = Pass::Absent;
+        for a in &mc.args {
+            let a = strip(a);
+            match path_ident(a) {
+                Some(id) if params.pattern.as_ref().map_or(false, |(p, _)| *p == id) => pat = Pass::Unchanged,
+                Some(id) if params.counts.contains(&id) => count = Pass::Unchanged,
+                _ => {
+                    // an argument that is neither parameter passed as is: attribute it to the
+                    // pattern slot if the wrapper has a pattern parameter, else to the count slot
+                    if params.pattern.is_some() && pat == Pass::Absent {
+                        pat = Pass::Other(text(a))
+                    } else {
+                        count = Pass::Other(text(a))
+                    }
+                }
+            }
+        }
+        return Ok(Call {
+            via: Via::Direct,
+            callee,
+            recv: if is_str_recv { Recv::SelfAsStr } else { Recv::Other(text(recv)) },
+            pat,
+            count,
+        });
+    }
+    // a pattern-trait style call whose receiver is not the pattern parameter, or anything else
+    Err(err_at(file, e.span(), &format!("unrecognised std call `{}`", text(e))))
+}
+
+struct WrapperRow {
+    name: String,
+    call: Call,
+    shape: &'static str,
+    adopt: Adopt,
+    comps: Vec<usize>,
+    ret: String,
+    loc: String,
+}
+
+/// `SRC.slice_ref_unchecked(ARG)` → (SRC, ARG ident)
+fn slice_ref_call(e: &Expr) -> Option<(Src, Option<String>, String)> {
+    let e = strip(e);
+    if let Expr::MethodCall(mc) = e {
+        if mc.method == "slice_ref_unchecked" && mc.args.len() == 1 && mc.turbofish.is_none() {
+            let arg = strip(&mc.args[0]);
+            return Some((classify_src(&mc.receiver), path_ident(arg), text(arg)));
+        }
+    }
+    None
+}
+
+fn same_src(srcs: &[Src]) -> Src {
+    if srcs.iter().all(|s| *s == srcs[0]) {
+        srcs[0].clone()
+    } else {
+        Src::Other(
+            srcs.iter()
+                .map(|s| match s {
+                    Src::Other(t) => t.clone(),
+                    Src::SelfRef => "self".into(),
+                    _ => "?".into(),
+                })
+                .collect::<Vec<_>>()
+                .join(" / "),
+        )
+    }
+}
+
+fn ret_ty(file: &SrcFile, f: &ImplItemFn, params: &Params) -> Result<String, String> {
+    let ReturnType::Type(_, ty) = &f.sig.output else {
+        return Ok(format!("(.other {})", lean_str("()")));
+    };
+    let sq = squeeze(&text(ty));
+    Ok(match sq.as_str() {
+        "Self" => ".self".into(),
+        "Option<Self>" => ".optSelf".into(),
+        "Option<(Self,Self)>" => ".optPair".into(),
+        "Result<Self,FromUtf16Error>" => ".resultSelf".into(),
+        _ => {
+            if let Type::Path(tp) = &**ty {
+                let seg = tp.path.segments.last().unwrap();
+                if tp.path.segments.len() == 1 && seg.ident == "IterWrapper" {
+                    let syn::PathArguments::AngleBracketed(ab) = &seg.arguments else {
+                        return Err(err_at(file, ty.span(), "IterWrapper without generic arguments"));
+                    };
+                    let tys: Vec<&Type> = ab
+                        .args
+                        .iter()
+                        .filter_map(|a| if let syn::GenericArgument::Type(t) = a { Some(t) } else { None })
+                        .collect();
+                    // `IterWrapper<'_, 'borrow, B, ITER>`
+                    if let [b, Type::Path(it)] = tys.as_slice() {
+                        if squeeze(&text(b)) == "B" && it.qself.is_none() {
+                            let segs: Vec<String> = it.path.segments.iter().map(|s| s.ident.to_string()).collect();
+                            // generic arguments of the iterator type may only be lifetimes
+                            let only_lifetimes = it.path.segments.iter().all(|s| match &s.arguments {
+                                syn::PathArguments::None => true,
+                                syn::PathArguments::AngleBracketed(a) => {
+                                    a.args.iter().all(|g| matches!(g, syn::GenericArgument::Lifetime(_)))
+                                }
+                                _ => false,
+                            });
+                            if only_lifetimes {
+                                // `P::Assoc` where P is the generic pattern type of this fn
+                                let generic_names: Vec<String> = f
+                                    .sig
+                                    .generics
+                                    .type_params()
+                                    .map(|t| t.ident.to_string())
+                                    .collect();
+                                if segs.len() == 2 && generic_names.contains(&segs[0]) && params.pattern.is_some() {
+                                    return Ok(format!("(.iterAssoc {})", lean_str(&segs[1])));
+                                }
+                                if segs.len() == 1 {
+                                    return Ok(format!("(.iterStd {})", lean_str(&segs[0])));
+                                }
+                            }
+                        }
+                    }
+                }
+            }
+            format!("(.other {})", lean_str(&sq))
+        }
+    })
+}
+
+fn wrapper_row(file: &SrcFile, f: &ImplItemFn) -> Result<WrapperRow, String> {
+    let params = params_of(file, f)?;
+    let name = f.sig.ident.to_string();
+    let l = loc(file, f.sig.span());
+    let ret = ret_ty(file, f, &params)?;
+    let fail = |what: &str| -> String {
+        format!("Gen/Wiring: wrapper {name} at {l}: body matches no template ({what})")
+    };
+    let mk = |call: Call, shape: &'static str, adopt: Adopt, comps: Vec<usize>| WrapperRow {
+        name: name.clone(),
+        call,
+        shape,
+        adopt,
+        comps,
+        ret: ret.clone(),
+        loc: l.clone(),
+    };
+    let stmts = &f.block.stmts;
+    // T2: `let s = CALL; unsafe { SRC.slice_ref_unchecked(s) }`
+    if let [Stmt::Local(local), Stmt::Expr(tail, None)] = stmts.as_slice() {
+        let (Pat::Ident(pi), Some(init)) = (&local.pat, &local.init) else {
+            return Err(fail("let without simple binding"));
+        };
+        if init.diverge.is_some() {
+            return Err(fail("let-else"));
+        }
+        let call = classify_call(file, &init.expr, &params)?;
+        let Some((src, arg, arg_text)) = slice_ref_call(tail) else {
+            return Err(fail("tail is not a slice_ref_unchecked call"));
+        };
+        let adopt = if arg.as_deref() == Some(&pi.ident.to_string()) {
+            Adopt::SliceRef(src)
+        } else {
+            Adopt::NotAdopted(format!("slice_ref_unchecked({arg_text})"))
+        };
+        return Ok(mk(call, ".single", adopt, vec![0]));
+    }
+    let [Stmt::Expr(body, None)] = stmts.as_slice() else {
+        return Err(fail("statement list"));
+    };
+    let body = strip(body);
+    match body {
+        // T1 / T5 / T6 / (T7 inner)
+        Expr::Call(c) => {
+            let func = squeeze(&text(&c.func));
+            let args: Vec<&Expr> = c.args.iter().collect();
+            match (func.as_str(), args.as_slice()) {
+                ("IterWrapper::new", [src, inner]) => {
+                    let call = classify_call(file, inner, &params)?;
+                    Ok(mk(call, ".iter", Adopt::IterWrapper(classify_src(src)), vec![]))
+                }
+                ("Self::from", [inner]) => {
+                    let call = classify_call(file, inner, &params)?;
+                    Ok(mk(call, ".owned", Adopt::FromString, vec![]))
+                }
+                ("Self", [inner]) => {
+                    // T6: `Self(self.0.m(args))`
+                    let inner = strip(inner);
+                    let Expr::MethodCall(mc) = inner else {
+                        return Err(fail("Self(…) around a non-call"));
+                    };
+                    if self_field(strip(&mc.receiver)).as_deref() != Some("0") {
+                        return Err(fail("Self(…) around a call whose receiver is not self.0"));
+                    }
+                    let mut count = Pass::Absent;
+                    for a in &mc.args {
+                        count = classify_count(a, &params);
+                    }
+                    if mc.args.len() > 1 {
+                        return Err(fail("self.0 delegation with several arguments"));
+                    }
+                    let call = Call {
+                        via: Via::Bytes,
+                        callee: mc.method.to_string(),
+                        recv: Recv::SelfBytes,
+                        pat: Pass::Absent,
+                        count,
+                    };
+                    Ok(mk(call, ".owned", Adopt::WrapBytes, vec![]))
+                }
+                _ => Err(fail(&format!("call of `{func}`"))),
+            }
+        }
+        Expr::MethodCall(mc) => {
+            let m = mc.method.to_string();
+            let args: Vec<&Expr> = mc.args.iter().collect();
+            // T7: `String::m(v).map(Into::into)` / `String::m(v).into()`
+            if let Expr::Call(c) = strip(&mc.receiver) {
+                let func = squeeze(&text(&c.func));
+                if let Some(callee) = func.strip_prefix("String::") {
+                    let shape = match (m.as_str(), args.as_slice()) {
+                        ("into", []) => ".owned",
+                        ("map", [a]) if squeeze(&text(*a)) == "Into::into" => ".resultOwned",
+                        _ => return Err(fail("String::… result not converted by into")),
+                    };
+                    // the single argument must be the fn's own parameter
+                    let cargs: Vec<&Expr> = c.args.iter().collect();
+                    let passed = match cargs.as_slice() {
+                        [a] => path_ident(strip(a)).map_or(false, |id| params.others.contains(&id)),
+                        _ => false,
+                    };
+                    let call = Call {
+                        via: Via::StringFn,
+                        callee: callee.to_string(),
+                        recv: Recv::StringFn,
+                        pat: Pass::Absent,
+                        count: if passed {
+                            Pass::Absent
+                        } else {
+                            Pass::Other(c.args.iter().map(|a| text(a)).collect::<Vec<_>>().join(", "))
+                        },
+                    };
+                    return Ok(mk(call, shape, Adopt::FromString, vec![]));
+                }
+            }
+            // T3 / T4: `CALL.map(|…| …)`
+            if m == "map" {
+                if let [Expr::Closure(cl)] = args.as_slice() {
+                    let call = classify_call(file, &mc.receiver, &params)?;
+                    let inputs: Vec<&Pat> = cl.inputs.iter().collect();
+                    let [input] = inputs.as_slice() else {
+                        return Err(fail("closure arity"));
+                    };
+                    let cbody = strip(&cl.body);
+                    match input {
+                        // T3
+                        Pat::Ident(pi) => {
+                            let Some((src, arg, arg_text)) = slice_ref_call(cbody) else {
+                                return Err(fail("closure body is not a slice_ref_unchecked call"));
+                            };
+                            let adopt = if arg.as_deref() == Some(&pi.ident.to_string()) {
+                                Adopt::SliceRef(src)
+                            } else {
+                                Adopt::NotAdopted(format!("slice_ref_unchecked({arg_text})"))
+                            };
+                            return Ok(mk(call, ".option", adopt, vec![0]));
+                        }
+                        // T4
+                        Pat::Tuple(pt) => {
+                            let mut binds = vec![];
+                            for el in &pt.elems {
+                                let Pat::Ident(pi) = el else {
+                                    return Err(fail("closure tuple pattern"));
+                                };
+                                binds.push(pi.ident.to_string());
+                            }
+                            let Expr::Tuple(tu) = cbody else {
+                                return Err(fail("closure body is not a tuple"));
+                            };
+                            if tu.elems.len() != binds.len() || binds.len() != 2 {
+                                return Err(fail("tuple arity"));
+                            }
+                            let mut srcs = vec![];
+                            let mut comps = vec![];
+                            let mut bad: Option<String> = None;
+                            for el in &tu.elems {
+                                let Some((src, arg, arg_text)) = slice_ref_call(el) else {
+                                    return Err(fail("tuple component is not a slice_ref_unchecked call"));
+                                };
+                                srcs.push(src);
+                                match arg.and_then(|a| binds.iter().position(|b| *b == a)) {
+                                    Some(i) => comps.push(i),
+                                    None => bad = Some(arg_text),
+                                }
+                            }
+                            let adopt = match bad {
+                                Some(t) => Adopt::NotAdopted(format!("slice_ref_unchecked({t})")),
+                                None => Adopt::SliceRef(same_src(&srcs)),
+                            };
+                            return Ok(mk(call, ".optionPair", adopt, comps));
+                        }
+                        _ => return Err(fail("closure parameter")),
+                    }
+                }
+            }
+            Err(fail(&format!("method call `.{m}(…)`")))
+        }
+        _ => Err(fail(&format!("expression `{}`", text(body)))),
+    }
+}
+
+struct TokenFinder {
+    found: bool,
+}
+impl TokenFinder {
+    fn scan(&mut self, ts: TokenStream) {
+        for tt in ts {
+            match tt {
+                TokenTree::Ident(i) if i == "slice_ref_unchecked" || i == "IterWrapper" => self.found = true,
+                TokenTree::Group(g) => self.scan(g.stream()),
+                _ => {}
+            }
+        }
+    }
+}
+
+fn hipstr_inherent_fns(file: &SrcFile) -> Vec<&ImplItemFn> {
+    let mut v = vec![];
+    for item in &file.ast.items {
+        let Item::Impl(imp) = item else { continue };
+        if imp.trait_.is_some() {
+            continue;
+        }
+        let Type::Path(tp) = &*imp.self_ty else { continue };
+        if last_seg(&tp.path) != "HipStr" {
+            continue;
+        }
+        for ii in &imp.items {
+            if let ImplItem::Fn(f) = ii {
+                v.push(f);
+            }
+        }
+    }
+    v
+}
+
+struct SliceRefRow {
+    callee: String,
+    conv: String,
+    recv: Recv,
+    loc: String,
+}
+
+/// `let X = P.conv(); unsafe { Self(RECV.callee(X)) }`
+fn slice_ref_row(file: &SrcFile, f: &ImplItemFn) -> Result<SliceRefRow, String> {
+    let l = loc(file, f.sig.span());
+    let fail = |what: &str| format!("Gen/Wiring: HipStr::slice_ref_unchecked at {l}: {what}");
+    let slice_param = f
+        .sig
+        .inputs
+        .iter()
+        .filter_map(|a| match a {
+            FnArg::Typed(pt) => match &*pt.pat {
+                Pat::Ident(pi) => Some(pi.ident.to_string()),
+                _ => None,
+            },
+            _ => None,
+        })
+        .collect::<Vec<_>>();
+    let [slice_param] = slice_param.as_slice() else {
+        return Err(fail("expected one parameter besides self"));
+    };
+    let [Stmt::Local(local), Stmt::Expr(tail, None)] = f.block.stmts.as_slice() else {
+        return Err(fail("expected `let …; unsafe { … }`"));
+    };
+    let (Pat::Ident(bind), Some(init)) = (&local.pat, &local.init) else {
+        return Err(fail("let shape"));
+    };
+    let Expr::MethodCall(conv) = strip(&init.expr) else {
+        return Err(fail("let initialiser is not a method call"));
+    };
+    if !conv.args.is_empty() || path_ident(strip(&conv.receiver)).as_deref() != Some(slice_param.as_str()) {
+        return Err(fail("let initialiser is not `<param>.conv()`"));
+    }
+    let Expr::Call(c) = strip(tail) else {
+        return Err(fail("tail is not `Self(…)`"));
+    };
+    if squeeze(&text(&c.func)) != "Self" || c.args.len() != 1 {
+        return Err(fail("tail is not `Self(…)`"));
+    }
+    let Expr::MethodCall(mc) = strip(&c.args[0]) else {
+        return Err(fail("Self(…) does not wrap a method call"));
+    };
+    if mc.args.len() != 1 || path_ident(strip(&mc.args[0])) != Some(bind.ident.to_string()) {
+        return Err(fail("the converted slice is not what is passed on"));
+    }
+    let recv = strip(&mc.receiver);
+    let recv = if self_field(recv).as_deref() == Some("0") { Recv::SelfBytes } else { Recv::Other(text(recv)) };
+    Ok(SliceRefRow { callee: mc.method.to_string(), conv: conv.method.to_string(), recv, loc: l })
+}
+
+// ---------------------------------------------------------------------------------------------
+// pattern.rs: traits
+
+struct TraitRow {
+    name: String,
+    sup: String,
+    methods: Vec<(String, bool)>,
+    loc: String,
+}
+
+const PATTERN_TRAITS: &[&str] = &["Pattern", "ReversePattern", "DoubleEndedPattern"];
+
+fn is_usize(t: &Type) -> bool {
+    squeeze(&text(t)) == "usize"
+}
+fn is_ref_str(t: &Type) -> bool {
+    squeeze(&text(t)) == "&str"
+}
+
+/// `(self, [n: usize,] h: &str)` → (count param name, haystack param name)
+fn pat_method_params(
+    file: &SrcFile,
+    sig: &syn::Signature,
+) -> Result<(Option<String>, String), String> {
+    let bad = || err_at(file, sig.span(), &format!("pattern-trait method `{}` has an unexpected parameter list", sig.ident));
+    let args: Vec<&FnArg> = sig.inputs.iter().collect();
+    let name_ty = |a: &FnArg| -> Option<(String, Type)> {
+        if let FnArg::Typed(pt) = a {
+            if let Pat::Ident(pi) = &*pt.pat {
+                return Some((pi.ident.to_string(), (*pt.ty).clone()));
+            }
+        }
+        None
+    };
+    let self_by_value = |a: &FnArg| matches!(a, FnArg::Receiver(r) if r.reference.is_none() && r.colon_token.is_none());
+    match args.as_slice() {
+        [s, h] if self_by_value(s) => {
+            let (hn, ht) = name_ty(h).ok_or_else(bad)?;
+            if !is_ref_str(&ht) {
+                return Err(bad());
+            }
+            Ok((None, hn))
+        }
+        [s, n, h] if self_by_value(s) => {
+            let (nn, nt) = name_ty(n).ok_or_else(bad)?;
+            let (hn, ht) = name_ty(h).ok_or_else(bad)?;
+            if !is_usize(&nt) || !is_ref_str(&ht) {
+                return Err(bad());
+            }
+            Ok((Some(nn), hn))
+        }
+        _ => Err(bad()),
+    }
+}
+
+fn trait_rows(file: &SrcFile) -> Result<Vec<TraitRow>, String> {
+    let mut rows = vec![];
+    for item in &file.ast.items {
+        let Item::Trait(t) = item else { continue };
+        let name = t.ident.to_string();
+        if !PATTERN_TRAITS.contains(&name.as_str()) {
+            continue;
+        }
+        let mut sup = String::new();
+        for b in &t.supertraits {
+            let syn::TypeParamBound::Trait(tb) = b else {
+                return Err(err_at(file, b.span(), "unsupported supertrait bound"));
+            };
+            let s = last_seg(&tb.path);
+            if s == "Sized" {
+                continue;
+            }
+            if !PATTERN_TRAITS.contains(&s.as_str()) || !sup.is_empty() {
+                return Err(err_at(file, b.span(), &format!("unexpected supertrait `{s}` of {name}")));
+            }
+            sup = s;
+        }
+        let mut methods = vec![];
+        for ti in &t.items {
+            match ti {
+                syn::TraitItem::Fn(f) => {
+                    if f.default.is_some() {
+                        return Err(err_at(file, f.span(), "pattern-trait method with a default body"));
+                    }
+                    let (cnt, _) = pat_method_params(file, &f.sig)?;
+                    methods.push((f.sig.ident.to_string(), cnt.is_some()));
+                }
+                syn::TraitItem::Type(_) => {}
+                other => return Err(err_at(file, other.span(), "unsupported item in a pattern trait")),
+            }
+        }
+        rows.push(TraitRow { name, sup, methods, loc: loc(file, t.ident.span()) });
+    }
+    for want in PATTERN_TRAITS {
+        if !rows.iter().any(|r| r.name == *want) {
+            return Err(format!("Gen/Wiring: trait {want} not found in {PATTERN_RS}"));
+        }
+    }
+    Ok(rows)
+}
+
+// ---------------------------------------------------------------------------------------------
+// pattern.rs: the `impl_pat!` macro definition
+
+struct ArmRow {
+    arm: String,
+    trait_: String,
+    method: String,
+    callee: String,
+    recv: String,
+    pat: Pass,
+    count: Pass,
+    assoc: String,
+    std_ty: String,
+    loc: String,
+}
+
+struct ChainRow {
+    arm: String,
+    trait_: String,
+    includes: String,
+    loc: String,
+}
+
+fn arm_kind_of(tokens: &[TokenTree]) -> Result<String, String> {
+    match tokens.first() {
+        Some(TokenTree::Ident(i)) if i == "reverse" => Ok("reverse".into()),
+        Some(TokenTree::Ident(i)) if i == "double_ended" => Ok("double_ended".into()),
+        Some(TokenTree::Punct(p)) if p.as_char() == '$' => Ok("base".into()),
+        Some(TokenTree::Ident(i)) if i == "for" => Ok("base".into()),
+        other => Err(format!(
+            "Gen/Wiring: impl_pat! arm/invocation starts with unexpected token `{}`",
+            other.map(|t| t.to_string()).unwrap_or_default()
+        )),
+    }
+}
+
+/// `type X<'haystack> = core::str::X<'haystack, Self>;` → `core::str::X<Self>`
+fn std_ty_of(ty: &Type) -> String {
+    if let Type::Path(tp) = ty {
+        if tp.qself.is_none() {
+            let mut out = vec![];
+            let n = tp.path.segments.len();
+            for (i, seg) in tp.path.segments.iter().enumerate() {
+                let mut s = seg.ident.to_string();
+                match &seg.arguments {
+                    syn::PathArguments::None => {}
+                    syn::PathArguments::AngleBracketed(ab) if i + 1 == n => {
+                        let tys: Vec<String> = ab
+                            .args
+                            .iter()
+                            .filter(|a| !matches!(a, syn::GenericArgument::Lifetime(_)))
+                            .map(|a| squeeze(&text(a)))
+                            .collect();
+                        s.push_str(&format!("<{}>", tys.join(",")));
+                    }
+                    _ => return squeeze(&text(ty)),
+                }
+                out.push(s);
+            }
+            return out.join("::");
+        }
+    }
+    squeeze(&text(ty))
+}
+
+fn parse_impl_items(ts: TokenStream) -> syn::Result<Vec<ImplItem>> {
+    (|input: syn::parse::ParseStream| {
+        let mut v = vec![];
+        while !input.is_empty() {
+            v.push(input.parse::<ImplItem>()?);
+        }
+        Ok(v)
+    })
+    .parse2(ts)
+}
+
+fn arm_rows(
+    file: &SrcFile,
+    arm: &str,
+    trait_: &str,
+    body: TokenStream,
+    rows: &mut Vec<ArmRow>,
+) -> Result<(), String> {
+    let items = parse_impl_items(body).map_err(|e| {
+        format!(
+            "Gen/Wiring: impl body of impl_pat! arm `{arm}` is not a plain list of impl items ({e}) at {}:{}",
+            file.rel,
+            e.span().start().line
+        )
+    })?;
+    // associated types first
+    let mut assoc: Vec<(String, String)> = vec![];
+    for it in &items {
+        if let ImplItem::Type(t) = it {
+            assoc.push((t.ident.to_string(), std_ty_of(&t.ty)));
+        }
+    }
+    for it in &items {
+        match it {
+            ImplItem::Type(_) => {}
+            ImplItem::Fn(f) => {
+                let l = loc(file, f.sig.span());
+                let (cnt, hay) = pat_method_params(file, &f.sig)?;
+                let Some(body) = single_expr(&f.block) else {
+                    return Err(format!("Gen/Wiring: impl_pat! method {} at {l}: body is not a single expression", f.sig.ident));
+                };
+                let Expr::MethodCall(mc) = strip(body) else {
+                    return Err(format!("Gen/Wiring: impl_pat! method {} at {l}: body is not a method call", f.sig.ident));
+                };
+                if mc.turbofish.is_some() {
+                    return Err(format!("Gen/Wiring: impl_pat! method {} at {l}: turbofish", f.sig.ident));
+                }
+                let recv = strip(&mc.receiver);
+                let recv = if path_ident(recv).as_deref() == Some(hay.as_str()) {
+                    ".haystack".to_string()
+                } else {
+                    format!("(.other {})", lean_str(&text(recv)))
+                };
+                // std's argument order: `m(pat)` / `m(n, pat)`
+                let args: Vec<&Expr> = mc.args.iter().map(strip).collect();
+                let pat_slot = |a: &Expr| if is_self(a) { Pass::Unchanged } else { Pass::Other(text(a)) };
+                let count_slot = |a: &Expr| match (path_ident(a), cnt.as_ref()) {
+                    (Some(id), Some(c)) if id == *c => Pass::Unchanged,
+                    _ => Pass::Other(text(a)),
+                };
+                let (count, pat) = match args.as_slice() {
+                    [p] => (Pass::Absent, pat_slot(p)),
+                    [c, p] => (count_slot(c), pat_slot(p)),
+                    _ => {
+                        return Err(format!(
+                            "Gen/Wiring: impl_pat! method {} at {l}: str call with {} arguments",
+                            f.sig.ident,
+                            args.len()
+                        ))
+                    }
+                };
+                // `-> Self::X<'_>` names the associated iterator type
+                let mut assoc_name = String::new();
+                if let ReturnType::Type(_, ty) = &f.sig.output {
+                    if let Type::Path(tp) = &**ty {
+                        if tp.qself.is_none() && tp.path.segments.len() == 2 && tp.path.segments[0].ident == "Self" {
+                            assoc_name = tp.path.segments[1].ident.to_string();
+                        }
+                    }
+                }
+                let std_ty = if assoc_name.is_empty() {
+                    String::new()
+                } else {
+                    match assoc.iter().find(|(n, _)| *n == assoc_name) {
+                        Some((_, t)) => t.clone(),
+                        None => {
+                            return Err(format!(
+                                "Gen/Wiring: impl_pat! method {} at {l}: associated type {assoc_name} not defined in the arm",
+                                f.sig.ident
+                            ))
+                        }
+                    }
+                };
+                rows.push(ArmRow {
+                    arm: arm.to_string(),
+                    trait_: trait_.to_string(),
+                    method: f.sig.ident.to_string(),
+                    callee: mc.method.to_string(),
+                    recv,
+                    pat,
+                    count,
+                    assoc: assoc_name,
+                    std_ty,
+                    loc: l,
+                });
+            }
+            other => return Err(err_at(file, other.span(), "unsupported item inside an impl_pat! arm")),
+        }
+    }
+    Ok(())
+}
+
+/// Cuts the transcriber of one arm: optional `impl_pat!( … );` then
+/// `impl $( <…> )? TRAIT for $t $( where … )? { ITEMS }`.
+fn transcriber(
+    file: &SrcFile,
+    arm: &str,
+    ts: TokenStream,
+    arms: &mut Vec<ArmRow>,
+    chain: &mut Vec<ChainRow>,
+) -> Result<(), String> {
+    let toks: Vec<TokenTree> = ts.into_iter().collect();
+    let mut i = 0;
+    let mut includes = String::new();
+    let mut impls = 0;
+    while i < toks.len() {
+        match &toks[i] {
+            TokenTree::Ident(id) if id == "impl_pat" => {
+                // `impl_pat ! ( … ) ;`
+                let (Some(TokenTree::Punct(bang)), Some(TokenTree::Group(g))) = (toks.get(i + 1), toks.get(i + 2)) else {
+                    return Err(err_at(file, id.span(), "malformed recursive impl_pat! call"));
+                };
+                if bang.as_char() != '!' || !includes.is_empty() {
+                    return Err(err_at(file, id.span(), "malformed or repeated recursive impl_pat! call"));
+                }
+                let inner: Vec<TokenTree> = g.stream().into_iter().collect();
+                includes = arm_kind_of(&inner)?;
+                i += 3;
+                if matches!(toks.get(i), Some(TokenTree::Punct(p)) if p.as_char() == ';') {
+                    i += 1;
+                }
+            }
+            TokenTree::Ident(id) if id == "impl" => {
+                let impl_span = id.span();
+                i += 1;
+                // optional `$( <generics> )?`
+                if matches!(toks.get(i), Some(TokenTree::Punct(p)) if p.as_char() == '$') {
+                    if !matches!(toks.get(i + 1), Some(TokenTree::Group(_)))
+                        || !matches!(toks.get(i + 2), Some(TokenTree::Punct(p)) if p.as_char() == '?')
+                    {
+                        return Err(err_at(file, impl_span, "unexpected tokens after `impl` in impl_pat!"));
+                    }
+                    i += 3;
+                }
+                let Some(TokenTree::Ident(tr)) = toks.get(i) else {
+                    return Err(err_at(file, impl_span, "expected the trait name after `impl` in impl_pat!"));
+                };
+                let trait_ = tr.to_string();
+                if !PATTERN_TRAITS.contains(&trait_.as_str()) {
+                    return Err(err_at(file, tr.span(), &format!("impl_pat! implements unknown trait {trait_}")));
+                }
+                // `for $t`
+                let ok_for = matches!(toks.get(i + 1), Some(TokenTree::Ident(f)) if f == "for")
+                    && matches!(toks.get(i + 2), Some(TokenTree::Punct(p)) if p.as_char() == '$')
+                    && matches!(toks.get(i + 3), Some(TokenTree::Ident(t)) if t == "t");
+                if !ok_for {
+                    return Err(err_at(file, tr.span(), "expected `for $t` in impl_pat!"));
+                }
+                i += 4;
+                // optional `$( where … )?`
+                if matches!(toks.get(i), Some(TokenTree::Punct(p)) if p.as_char() == '$') {
+                    if !matches!(toks.get(i + 1), Some(TokenTree::Group(_)))
+                        || !matches!(toks.get(i + 2), Some(TokenTree::Punct(p)) if p.as_char() == '?')
+                    {
+                        return Err(err_at(file, impl_span, "unexpected tokens before the impl body in impl_pat!"));
+                    }
+                    i += 3;
+                }
+                let Some(TokenTree::Group(body)) = toks.get(i) else {
+                    return Err(err_at(file, impl_span, "expected the impl body in impl_pat!"));
+                };
+                if body.delimiter() != Delimiter::Brace {
+                    return Err(err_at(file, impl_span, "expected a braced impl body in impl_pat!"));
+                }
+                arm_rows(file, arm, &trait_, body.stream(), arms)?;
+                chain.push(ChainRow {
+                    arm: arm.to_string(),
+                    trait_,
+                    includes: String::new(),
+                    loc: loc(file, impl_span),
+                });
+                impls += 1;
+                i += 1;
+            }
+            other => {
+                return Err(err_at(
+                    file,
+                    other.span(),
+                    &format!("unexpected token `{other}` in the transcriber of impl_pat! arm `{arm}`"),
+                ))
+            }
+        }
+    }
+    if impls != 1 {
+        return Err(format!("Gen/Wiring: impl_pat! arm `{arm}` contains {impls} impls (expected 1)"));
+    }
+    chain.last_mut().unwrap().includes = includes;
+    Ok(())
+}
+
+fn macro_def(file: &SrcFile, arms: &mut Vec<ArmRow>, chain: &mut Vec<ChainRow>) -> Result<(), String> {
+    let mut found = false;
+    for item in &file.ast.items {
+        let Item::Macro(m) = item else { continue };
+        if !m.mac.path.is_ident("macro_rules") || m.ident.as_ref().map_or(true, |i| i != "impl_pat") {
+            continue;
+        }
+        if found {
+            return Err("Gen/Wiring: impl_pat! defined twice".into());
+        }
+        found = true;
+        let toks: Vec<TokenTree> = m.mac.tokens.clone().into_iter().collect();
+        let mut i = 0;
+        while i < toks.len() {
+            // `( matcher ) => { transcriber } ;`
+            let (Some(TokenTree::Group(matcher)), Some(TokenTree::Punct(eq)), Some(TokenTree::Punct(gt)), Some(TokenTree::Group(body))) =
+                (toks.get(i), toks.get(i + 1), toks.get(i + 2), toks.get(i + 3))
+            else {
+                return Err(err_at(file, toks[i].span(), "malformed macro_rules arm in impl_pat!"));
+            };
+            if eq.as_char() != '=' || gt.as_char() != '>' {
+                return Err(err_at(file, toks[i].span(), "malformed macro_rules arm in impl_pat!"));
+            }
+            let mt: Vec<TokenTree> = matcher.stream().into_iter().collect();
+            let kind = arm_kind_of(&mt)?;
+            if chain.iter().any(|c| c.arm == kind) {
+                return Err(err_at(file, toks[i].span(), &format!("two impl_pat! arms of kind `{kind}`")));
+            }
+            transcriber(file, &kind, body.stream(), arms, chain)?;
+            i += 4;
+            if matches!(toks.get(i), Some(TokenTree::Punct(p)) if p.as_char() == ';') {
+                i += 1;
+            }
+        }
+    }
+    if !found {
+        return Err(format!("Gen/Wiring: macro impl_pat! not found in {PATTERN_RS}"));
+    }
+    Ok(())
+}
+
+// ---------------------------------------------------------------------------------------------
+// pattern.rs: invocations
+
+struct InvRow {
+    arm: String,
+    ty: String,
+    where_cl: String,
+    loc: String,
+}
+
+fn canon_ty(t: &Type) -> Result<String, String> {
+    Ok(match t {
+        Type::Reference(r) if r.mutability.is_none() => format!("&{}", canon_ty(&r.elem)?),
+        Type::Path(p) if p.qself.is_none() && p.path.get_ident().is_some() => p.path.get_ident().unwrap().to_string(),
+        Type::Slice(s) => format!("[{}]", canon_ty(&s.elem)?),
+        Type::Array(a) => format!("[{}; {}]", canon_ty(&a.elem)?, squeeze(&text(&a.len))),
+        Type::Paren(p) => canon_ty(&p.elem)?,
+        other => return Err(format!("Gen/Wiring: unsupported pattern type `{}` in an impl_pat! invocation", text(other))),
+    })
+}
+
+fn invocations(file: &SrcFile) -> Result<Vec<InvRow>, String> {
+    let mut rows = vec![];
+    for item in &file.ast.items {
+        let Item::Macro(m) = item else { continue };
+        if !m.mac.path.is_ident("impl_pat") {
+            continue;
+        }
+        let l = loc(file, m.mac.path.span());
+        let toks: Vec<TokenTree> = m.mac.tokens.clone().into_iter().collect();
+        let arm = arm_kind_of(&toks).or_else(|e| {
+            // an invocation of the base arm may start with `<`
+            match toks.first() {
+                Some(TokenTree::Punct(p)) if p.as_char() == '<' => Ok("base".to_string()),
+                _ => Err(format!("{e} at {l}")),
+            }
+        })?;
+        let Some(pos) = toks.iter().position(|t| matches!(t, TokenTree::Ident(i) if i == "for")) else {
+            return Err(format!("Gen/Wiring: impl_pat! invocation without `for` at {l}"));
+        };
+        let rest = &toks[pos + 1..];
+        let wpos = rest.iter().position(|t| matches!(t, TokenTree::Ident(i) if i == "where"));
+        let (ty_toks, where_toks) = match wpos {
+            Some(w) => (&rest[..w], &rest[w + 1..]),
+            None => (rest, &rest[rest.len()..]),
+        };
+        let ty_ts: TokenStream = ty_toks.iter().cloned().collect();
+        let ty: Type = syn::parse2(ty_ts).map_err(|e| format!("Gen/Wiring: impl_pat! invocation at {l}: type does not parse ({e})"))?;
+        let where_ts: TokenStream = where_toks.iter().cloned().collect();
+        rows.push(InvRow { arm, ty: canon_ty(&ty).map_err(|e| format!("{e} at {l}"))?, where_cl: squeeze(&where_ts.to_string()), loc: l });
+    }
+    if rows.is_empty() {
+        return Err(format!("Gen/Wiring: no impl_pat! invocation in {PATTERN_RS}"));
+    }
+    Ok(rows)
+}
+
+// ---------------------------------------------------------------------------------------------
+// pattern.rs: Adopt impls and IterWrapper
+
+struct AdoptRow {
+    item_ty: String,
+    out: Vec<String>,
+    loc: String,
+}
+
+fn proj_of_self(e: &Expr) -> Option<Option<usize>> {
+    let e = strip(e);
+    if is_self(e) {
+        return Some(None);
+    }
+    self_field(e).and_then(|f| f.parse::<usize>().ok()).map(Some)
+}
+
+fn adopt_comp(e: &Expr, source_param: &str) -> String {
+    let e = strip(e);
+    if let Expr::MethodCall(mc) = e {
+        if mc.method == "slice_ref_unchecked" && mc.args.len() == 1 {
+            let recv = strip(&mc.receiver);
+            let src = if path_ident(recv).as_deref() == Some(source_param) {
+                Src::SourceParam
+            } else {
+                Src::Other(text(recv))
+            };
+            if let Some(p) = proj_of_self(&mc.args[0]) {
+                let p = match p {
+                    None => "none".to_string(),
+                    Some(i) => format!("(some {i})"),
+                };
+                return format!(".adoptStr {} {p}", src.lean());
+            }
+        }
+    }
+    if let Some(Some(i)) = proj_of_self(e) {
+        return format!(".idx {i}");
+    }
+    format!(".other {}", lean_str(&text(e)))
+}
+
+fn impl_self_name(imp: &syn::ItemImpl) -> String {
+    match &*imp.self_ty {
+        Type::Path(tp) => last_seg(&tp.path),
+        _ => String::new(),
+    }
+}
+
+fn adopt_rows(file: &SrcFile) -> Result<Vec<AdoptRow>, String> {
+    let mut rows = vec![];
+    for item in &file.ast.items {
+        let Item::Impl(imp) = item else { continue };
+        let Some((_, tr, _)) = &imp.trait_ else { continue };
+        if last_seg(tr) != "Adopt" {
+            continue;
+        }
+        let item_ty = squeeze(&text(&imp.self_ty));
+        let fns: Vec<&ImplItemFn> = imp.items.iter().filter_map(|i| if let ImplItem::Fn(f) = i { Some(f) } else { None }).collect();
+        let [f] = fns.as_slice() else {
+            return Err(err_at(file, imp.span(), "Adopt impl without exactly one fn"));
+        };
+        if f.sig.ident != "adopt_unchecked" {
+            return Err(err_at(file, f.sig.span(), "Adopt impl fn is not adopt_unchecked"));
+        }
+        let names: Vec<String> = f
+            .sig
+            .inputs
+            .iter()
+            .filter_map(|a| match a {
+                FnArg::Typed(pt) => match &*pt.pat {
+                    Pat::Ident(pi) => Some(pi.ident.to_string()),
+                    _ => None,
+                },
+                _ => None,
+            })
+            .collect();
+        let [source] = names.as_slice() else {
+            return Err(err_at(file, f.sig.span(), "adopt_unchecked parameter list"));
+        };
+        let Some(body) = single_expr(&f.block) else {
+            return Err(err_at(file, f.sig.span(), "adopt_unchecked body is not a single expression"));
+        };
+        let body = strip(body);
+        let out = match body {
+            Expr::Tuple(t) => t.elems.iter().map(|e| adopt_comp(e, source)).collect(),
+            e => vec![adopt_comp(e, source)],
+        };
+        rows.push(AdoptRow { item_ty, out, loc: loc(file, f.sig.span()) });
+    }
+    if rows.is_empty() {
+        return Err(format!("Gen/Wiring: no Adopt impl in {PATTERN_RS}"));
+    }
+    Ok(rows)
+}
+
+struct FwdRow {
+    trait_: String,
+    method: String,
+    callee: String,
+    recv: String,
+    item: String,
+    inner_bounds: Vec<String>,
+    item_adopt: bool,
+    loc: String,
+}
+
+struct NewRow {
+    params: Vec<String>,
+    fields: Vec<(String, String)>,
+    loc: String,
+}
+
+fn iter_wrapper(file: &SrcFile) -> Result<(Vec<FwdRow>, Vec<String>, NewRow), String> {
+    let mut fwd = vec![];
+    let mut traits = vec![];
+    let mut new_row = None;
+    for item in &file.ast.items {
+        let Item::Impl(imp) = item else { continue };
+        if impl_self_name(imp) != "IterWrapper" {
+            continue;
+        }
+        match &imp.trait_ {
+            None => {
+                for ii in &imp.items {
+                    let ImplItem::Fn(f) = ii else { continue };
+                    if f.sig.ident != "new" {
+                        return Err(err_at(file, f.sig.span(), &format!("unknown inherent fn IterWrapper::{}", f.sig.ident)));
+                    }
+                    let params: Vec<String> = f
+                        .sig
+                        .inputs
+                        .iter()
+                        .map(|a| match a {
+                            FnArg::Typed(pt) => squeeze(&text(&pt.pat)),
+                            FnArg::Receiver(_) => "self".into(),
+                        })
+                        .collect();
+                    let Some(Expr::Struct(st)) = single_expr(&f.block).map(strip) else {
+                        return Err(err_at(file, f.sig.span(), "IterWrapper::new body is not a struct literal"));
+                    };
+                    if squeeze(&text(&st.path)) != "Self" || st.rest.is_some() {
+                        return Err(err_at(file, f.sig.span(), "IterWrapper::new body is not `Self { … }`"));
+                    }
+                    let fields = st
+                        .fields
+                        .iter()
+                        .map(|fv| (squeeze(&text(&fv.member)), squeeze(&text(&fv.expr))))
+                        .collect();
+                    new_row = Some(NewRow { params, fields, loc: loc(file, f.sig.span()) });
+                }
+            }
+            Some((_, tr, _)) => {
+                let tname = last_seg(tr);
+                traits.push(tname.clone());
+                if tname == "Clone" {
+                    continue;
+                }
+                // inner iterator type parameter = last generic argument of the self type
+                let Type::Path(tp) = &*imp.self_ty else { unreachable!() };
+                let syn::PathArguments::AngleBracketed(ab) = &tp.path.segments.last().unwrap().arguments else {
+                    return Err(err_at(file, imp.span(), "IterWrapper impl without generic arguments"));
+                };
+                let Some(syn::GenericArgument::Type(inner_ty)) = ab.args.last() else {
+                    return Err(err_at(file, imp.span(), "IterWrapper impl: last generic argument is not a type"));
+                };
+                let inner_name = squeeze(&text(inner_ty));
+                let mut inner_bounds = vec![];
+                let mut item_adopt = false;
+                let mut add_bounds = |bounded: String, bounds: &syn::punctuated::Punctuated<syn::TypeParamBound, syn::Token![+]>| {
+                    for b in bounds {
+                        if let syn::TypeParamBound::Trait(tb) = b {
+                            let n = last_seg(&tb.path);
+                            if bounded == inner_name {
+                                inner_bounds.push(n);
+                            } else if bounded == format!("{inner_name}::Item") && n == "Adopt" {
+                                item_adopt = true;
+                            }
+                        }
+                    }
+                };
+                for gp in &imp.generics.params {
+                    if let syn::GenericParam::Type(t) = gp {
+                        add_bounds(t.ident.to_string(), &t.bounds);
+                    }
+                }
+                if let Some(wc) = &imp.generics.where_clause {
+                    for p in &wc.predicates {
+                        if let syn::WherePredicate::Type(pt) = p {
+                            add_bounds(squeeze(&text(&pt.bounded_ty)), &pt.bounds);
+                        }
+                    }
+                }
+                for ii in &imp.items {
+                    let f = match ii {
+                        ImplItem::Fn(f) => f,
+                        ImplItem::Type(_) => continue,
+                        other => return Err(err_at(file, other.span(), "unsupported item in an IterWrapper impl")),
+                    };
+                    let l = loc(file, f.sig.span());
+                    let fail = |what: &str| format!("Gen/Wiring: IterWrapper {tname}::{} at {l}: {what}", f.sig.ident);
+                    let Some(body) = single_expr(&f.block) else {
+                        return Err(fail("body is not a single expression"));
+                    };
+                    let Expr::MethodCall(outer) = strip(body) else {
+                        return Err(fail("body is not a method call"));
+                    };
+                    // `self.inner.M(args)` possibly followed by `.map(|item| unsafe { item.adopt_unchecked(SRC) })`
+                    let (inner_call, item) = if outer.method == "map" && outer.args.len() == 1 && matches!(strip(&outer.receiver), Expr::MethodCall(_)) {
+                        let Expr::MethodCall(ic) = strip(&outer.receiver) else { unreachable!() };
+                        let item = match strip(&outer.args[0]) {
+                            Expr::Closure(cl) if cl.inputs.len() == 1 => {
+                                let bind = match &cl.inputs[0] {
+                                    Pat::Ident(pi) => pi.ident.to_string(),
+                                    _ => return Err(fail("closure parameter")),
+                                };
+                                match strip(&cl.body) {
+                                    Expr::MethodCall(ad)
+                                        if ad.method == "adopt_unchecked"
+                                            && ad.args.len() == 1
+                                            && path_ident(strip(&ad.receiver)).as_deref() == Some(bind.as_str()) =>
+                                    {
+                                        let a = strip(&ad.args[0]);
+                                        let src = if self_field(a).as_deref() == Some("source") {
+                                            Src::SelfSourceField
+                                        } else {
+                                            Src::Other(text(a))
+                                        };
+                                        format!("(.adoptFrom {})", src.lean())
+                                    }
+                                    other => format!("(.other {})", lean_str(&text(other))),
+                                }
+                            }
+                            other => format!("(.other {})", lean_str(&text(other))),
+                        };
+                        (ic, item)
+                    } else {
+                        (outer, ".none".to_string())
+                    };
+                    let r = strip(&inner_call.receiver);
+                    let recv = if self_field(r).as_deref() == Some("inner") {
+                        ".selfInner".to_string()
+                    } else {
+                        format!("(.other {})", lean_str(&text(r)))
+                    };
+                    fwd.push(FwdRow {
+                        trait_: tname.clone(),
+                        method: f.sig.ident.to_string(),
+                        callee: inner_call.method.to_string(),
+                        recv,
+                        item,
+                        inner_bounds: inner_bounds.clone(),
+                        item_adopt,
+                        loc: l,
+                    });
+                }
+            }
+        }
+    }
+    let new_row = new_row.ok_or_else(|| format!("Gen/Wiring: IterWrapper::new not found in {PATTERN_RS}"))?;
+    Ok((fwd, traits, new_row))
+}
+
+// ---------------------------------------------------------------------------------------------
+
+fn list(items: Vec<String>) -> String {
+    if items.is_empty() {
+        "[]".into()
+    } else {
+        format!("[\n    {}\n  ]", items.join(",\n    "))
+    }
+}
+
+pub fn generate(repo: &Repo) -> Result<Vec<GenFile>, String> {
+    let sfile = repo.file(STRING_RS)?;
+    let pfile = repo.file(PATTERN_RS)?;
+
+    // wrappers
+    let mut wrappers = vec![];
+    let mut slice_ref = None;
+    for f in hipstr_inherent_fns(sfile) {
+        let name = f.sig.ident.to_string();
+        if name == "slice_ref_unchecked" {
+            slice_ref = Some(slice_ref_row(sfile, f)?);
+            continue;
+        }
+        let mut tf = TokenFinder { found: false };
+        tf.scan(quote::ToTokens::to_token_stream(&f.block));
+        tf.scan(quote::ToTokens::to_token_stream(&f.sig.output));
+        if tf.found || ALLOCATING.contains(&name.as_str()) {
+            wrappers.push(wrapper_row(sfile, f)?);
+        }
+    }
+    let slice_ref = slice_ref.ok_or_else(|| format!("Gen/Wiring: HipStr::slice_ref_unchecked not found in {STRING_RS}"))?;
+    if wrappers.is_empty() {
+        return Err(format!("Gen/Wiring: no wrapper found in {STRING_RS}"));
+    }
+
+    let traits = trait_rows(pfile)?;
+    let mut arms = vec![];
+    let mut chain = vec![];
+    macro_def(pfile, &mut arms, &mut chain)?;
+    let invs = invocations(pfile)?;
+    let adopts = adopt_rows(pfile)?;
+    let (fwd, iter_traits, new_row) = iter_wrapper(pfile)?;
+
+    let mut s = String::from(HEADER);
+    s.push_str("import HipVerif.Model.WiringTy\n\nnamespace HipVerif.Gen.Wiring\nopen HipVerif.Wiring\n\n");
+    s.push_str("/-- What `src/string.rs` and `src/string/pattern.rs` literally say (one row per wrapper / macro-arm method / impl). -/\n");
+    s.push_str("def tables : Tables where\n");
+    s.push_str(&format!(
+        "  wrappers := {}\n",
+        list(wrappers
+            .iter()
+            .map(|w| format!(
+                "⟨{}, {}, {}, {}, {}, {}, {}, {}, [{}], {}, {}⟩",
+                lean_str(&w.name),
+                w.call.via.lean(),
+                lean_str(&w.call.callee),
+                w.call.recv.lean(),
+                w.call.pat.lean(),
+                w.call.count.lean(),
+                w.shape,
+                w.adopt.lean(),
+                w.comps.iter().map(|c| c.to_string()).collect::<Vec<_>>().join(", "),
+                w.ret,
+                lean_str(&w.loc)
+            ))
+            .collect())
+    ));
+    s.push_str(&format!(
+        "  arms := {}\n",
+        list(arms
+            .iter()
+            .map(|a| format!(
+                "⟨{}, {}, {}, {}, {}, {}, {}, {}, {}, {}⟩",
+                lean_str(&a.arm),
+                lean_str(&a.trait_),
+                lean_str(&a.method),
+                lean_str(&a.callee),
+                a.recv,
+                a.pat.lean(),
+                a.count.lean(),
+                lean_str(&a.assoc),
+                lean_str(&a.std_ty),
+                lean_str(&a.loc)
+            ))
+            .collect())
+    ));
+    s.push_str(&format!(
+        "  chain := {}\n",
+        list(chain
+            .iter()
+            .map(|c| format!(
+                "⟨{}, {}, {}, {}⟩",
+                lean_str(&c.arm),
+                lean_str(&c.trait_),
+                lean_str(&c.includes),
+                lean_str(&c.loc)
+            ))
+            .collect())
+    ));
+    s.push_str(&format!(
+        "  invocations := {}\n",
+        list(invs
+            .iter()
+            .map(|i| format!(
+                "⟨{}, {}, {}, {}⟩",
+                lean_str(&i.arm),
+                lean_str(&i.ty),
+                lean_str(&i.where_cl),
+                lean_str(&i.loc)
+            ))
+            .collect())
+    ));
+    s.push_str(&format!(
+        "  traits := {}\n",
+        list(traits
+            .iter()
+            .map(|t| format!(
+                "⟨{}, {}, [{}], {}⟩",
+                lean_str(&t.name),
+                lean_str(&t.sup),
+                t.methods
+                    .iter()
+                    .map(|(m, c)| format!("({}, {c})", lean_str(m)))
+                    .collect::<Vec<_>>()
+                    .join(", "),
+                lean_str(&t.loc)
+            ))
+            .collect())
+    ));
+    s.push_str(&format!(
+        "  adopts := {}\n",
+        list(adopts
+            .iter()
+            .map(|a| format!("⟨{}, [{}], {}⟩", lean_str(&a.item_ty), a.out.join(", "), lean_str(&a.loc)))
+            .collect())
+    ));
+    s.push_str(&format!(
+        "  forwards := {}\n",
+        list(fwd
+            .iter()
+            .map(|f| format!(
+                "⟨{}, {}, {}, {}, {}, [{}], {}, {}⟩",
+                lean_str(&f.trait_),
+                lean_str(&f.method),
+                lean_str(&f.callee),
+                f.recv,
+                f.item,
+                f.inner_bounds.iter().map(|b| lean_str(b)).collect::<Vec<_>>().join(", "),
+                f.item_adopt,
+                lean_str(&f.loc)
+            ))
+            .collect())
+    ));
+    s.push_str(&format!(
+        "  iterTraits := [{}]\n",
+        iter_traits.iter().map(|t| lean_str(t)).collect::<Vec<_>>().join(", ")
+    ));
+    s.push_str(&format!(
+        "  iterNew := ⟨[{}], [{}], {}⟩\n",
+        new_row.params.iter().map(|p| lean_str(p)).collect::<Vec<_>>().join(", "),
+        new_row
+            .fields
+            .iter()
+            .map(|(f, e)| format!("({}, {})", lean_str(f), lean_str(e)))
+            .collect::<Vec<_>>()
+            .join(", "),
+        lean_str(&new_row.loc)
+    ));
+    s.push_str(&format!(
+        "  sliceRef := ⟨{}, {}, {}, {}⟩\n",
+        lean_str(&slice_ref.callee),
+        lean_str(&slice_ref.conv),
+        slice_ref.recv.lean(),
+        lean_str(&slice_ref.loc)
+    ));
+    s.push_str("\n/-- The flattened table `Props.C11.wiring_ok` quantifies over. -/\ndef table : List Row := tables.rows\n");
+    s.push_str("\nend HipVerif.Gen.Wiring\n");
+    Ok(vec![GenFile { name: "Wiring.lean".into(), content: s }])
 }
